@@ -29,17 +29,29 @@ type specCtx struct {
 	scopePkg  *types.Package
 	depth     int
 	where     string
+	parent    *specCtx
+	lenient   bool   // check clauses: a local that does not exist at this exit makes the clause inapplicable
+	missing   bool
 	limited   string // name of the recursive spec function whose definitional axiom is being built
 }
 
 func (sc *specCtx) with(st *State) *specCtx {
 	n := *sc
 	n.st = st
+	n.parent = sc.root()
 	return &n
+}
+
+func (sc *specCtx) root() *specCtx {
+	if sc.parent != nil {
+		return sc.parent
+	}
+	return sc
 }
 
 func (sc *specCtx) bind(name string, v Val) *specCtx {
 	n := *sc
+	n.parent = sc.root()
 	n.vars = make(map[string]Val, len(sc.vars)+1)
 	for k, x := range sc.vars {
 		n.vars[k] = x
@@ -374,6 +386,10 @@ func (ex *Exec) specLoadVar(sc *specCtx, v *types.Var) (Val, bool) {
 	if t == nil {
 		if pv, ok := ex.paramVals[v.Name()]; ok && len(ex.code) <= 1 {
 			return pv, true
+		}
+		if sc.lenient {
+			sc.root().missing = true
+			return Val{ex.fresh("unk", sortOf(v.Type())), v.Type()}, false
 		}
 		ex.specErr(sc, "variable %s has no value in this state", v.Name())
 		return Val{ex.fresh("unk", sortOf(v.Type())), v.Type()}, false
